@@ -30,11 +30,12 @@ Definition dstorage (s : storage) : Z :=
 Inductive obs := Ob (cur loader known hash32 jdig sdig : Z).
 
 Inductive op :=
-(* source edit: node 0 applyUpdate([e]); hs = low 32 bits of the 128-bit hash of e, compact e, wire e, wire (compact e) *)
-| OEdit (e : event) (hs : list Z) (o : obs)
-(* node [to] asks its upstream for a diff from its loaderVersion with the item limit, the answer is cut to
+(* source edit: node 0 applyUpdate([e]); hs = low 32 bits of the 128-bit hash of e, compact e, wire e, wire (compact e);
+   szs = len(Name)+len(Data)+60 of e and of compact e (what the byte budget of a diff counts) *)
+| OEdit (e : event) (hs : list Z) (szs : list Z) (o : obs)
+(* node [to] asks its upstream for a diff from its loaderVersion with the item and byte limits, the answer is cut to
    [cut] events and applied *)
-| ODeliver (to max_items cut : Z) (amb : list (name * Z)) (gord : list Z) (o : obs)
+| ODeliver (to max_items max_bytes cut : Z) (amb : list (name * Z)) (gord : list Z) (o : obs)
 (* node saves, the file is truncated, node is re-created from the file with a fresh MetricsStorage;
    hdr/chunks = what the reader got back; full = nothing was cut off *)
 | OReload (node : Z) (full hdr : bool) (chunks : list nat) (amb : list (name * Z)) (gord : list Z) (o : obs).
@@ -49,20 +50,24 @@ Inductive case :=
 | CConsts (cs : list Z).
 
 (* ---- hash table built from the edits ---- *)
-Definition htab := list (event * Z).
+Definition htab := list (event * (Z * Z)).   (* event without version -> (hash, size) *)
 Definition hlookup (t : htab) (e : event) : Z :=
-  match find (fun p => event_eqb_nover (fst p) e) t with Some p => snd p | None => 0 end.
+  match find (fun p => event_eqb_nover (fst p) e) t with Some p => fst (snd p) | None => 0 end.
+Definition szlookup (t : htab) (e : event) : Z :=
+  match find (fun p => event_eqb_nover (fst p) e) t with Some p => snd (snd p) | None => 0 end.
 Definition forms (e : event) : list (option event) :=
   [Some e; compact_event e; Some (wire e); match compact_event e with Some c => Some (wire c) | None => None end].
-Fixpoint zip_forms (fs : list (option event)) (hs : list Z) : htab :=
-  match fs, hs with
-  | Some f :: fr, h :: hr => (f, h) :: zip_forms fr hr
-  | None :: fr, _ :: hr => zip_forms fr hr
-  | _, _ => []
+Fixpoint zip_forms (fs : list (option event)) (hs szs : list Z) : htab :=
+  match fs, hs, szs with
+  | Some f :: fr, h :: hr, z :: zr => (f, (h, z)) :: zip_forms fr hr zr
+  | None :: fr, _ :: hr, _ :: zr => zip_forms fr hr zr
+  | _, _, _ => []
   end.
+Definition sizes4 (szs : list Z) : list Z :=
+  match szs with [a; b] => [a; b; a; b] | _ => [] end.
 Fixpoint build_htab (ops : list op) : htab :=
   match ops with
-  | OEdit e hs _ :: r => zip_forms (forms e) hs ++ build_htab r
+  | OEdit e hs szs _ :: r => zip_forms (forms e) hs (sizes4 szs) ++ build_htab r
   | _ :: r => build_htab r
   | [] => []
   end.
@@ -91,20 +96,21 @@ Definition big : Z := 1000000000000.
 Section Run.
   Variable fixm fixg : bool.
   Variable H : event -> Z.
+  Variable SZ : event -> Z.
 
   (* the node an operation touches, its index, its state afterwards, and the observation to compare with *)
   Definition post (ns : nodes) (o : op) : option (nat * node * obs) :=
     match o with
-    | OEdit e _ ob =>
+    | OEdit e _ _ ob =>
         let n := getn ns 0 in
         match apply_update H (nd_j n) [e] (e_ver e) with
         | None => None
         | Some (j', evs) => Some (0%nat, Nd j' (apply_events fixm fixg [] [] (nd_s n) evs), ob)
         end
-    | ODeliver to mx cut amb gord ob =>
+    | ODeliver to mx mb cut amb gord ob =>
         let n := getn ns to in
         let up := getn ns (if to =? 1 then 0 else 1) in
-        let d := journal_diff no_sz (nd_j up) (j_loader (nd_j n)) mx big in
+        let d := journal_diff SZ (nd_j up) (j_loader (nd_j n)) mx mb in
         let d := if to =? 1 then d else map wire d in
         let d := takeZ cut d in
         match apply_update H (nd_j n) d (j_cur (nd_j up)) with
@@ -175,7 +181,7 @@ Definition init_nodes (compact : bool) : nodes :=
    Nd (empty_journal false) init_storage; Nd (empty_journal false) init_storage].
 
 Definition hist_ok (fixm fixg : bool) (compact : bool) (ops : list op) (finals : list fobs) : bool :=
-  match run fixm fixg (hlookup (build_htab ops)) (init_nodes compact) ops with
+  match (let t := build_htab ops in run fixm fixg (hlookup t) (szlookup t) (init_nodes compact) ops) with
   | Some ns => forallb (final_ok ns) finals
   | None => false
   end.
